@@ -228,11 +228,35 @@ fn like_op(op: Op, lhs: &dyn Datum, rhs: &dyn Datum) -> Result<BooleanArray, Arr
         )));
     }
 
+    let out_len = match (l_s, r_s) {
+        (true, true) => 1,
+        (true, false) => r.len(),
+        (false, _) => l.len(),
+    };
+
     let l_v = l.as_any_dictionary_opt();
     let l = l_v.map(|x| x.values().as_ref()).unwrap_or(l);
 
     let r_v = r.as_any_dictionary_opt();
     let r = r_v.map(|x| x.values().as_ref()).unwrap_or(r);
+
+    // A dictionary without values can only hold null keys: every result row is null
+    // (the per-row paths below index into the dictionary values)
+    let empty_dictionary = l_v.is_some_and(|d| d.values().is_empty())
+        || r_v.is_some_and(|d| d.values().is_empty());
+    if empty_dictionary
+        && matches!(
+            (l.data_type(), r.data_type()),
+            (Utf8, Utf8)
+                | (LargeUtf8, LargeUtf8)
+                | (Utf8View, Utf8View)
+                | (Binary, Binary)
+                | (LargeBinary, LargeBinary)
+                | (BinaryView, BinaryView)
+        )
+    {
+        return Ok(BooleanArray::new_null(out_len));
+    }
 
     match (l.data_type(), r.data_type()) {
         (Utf8, Utf8) => string_apply::<&GenericStringArray<i32>>(
